@@ -175,6 +175,34 @@ HISTORY = {
     'C18_R': 'missed at first; caught by the block-walk rule (a block with an optional second line is not walked from a fixed offset)',
     'C20_P': 'missed at first (roundings in api/ were treated like those of an oracle module); caught after the module filter was corrected',
     'C20_Q': 'missed at first; caught by the identity-comparison rule (x is <string constant>)',
+    # round 8 (ids S/T/U)
+    'C01_S': 'UNDECIDED at first; caught after user-defined projections (odd and fractional zone widths) joined the zone / central-meridian lattice',
+    'C01_T': 'missed at first; caught after object equality was modelled (a class __eq__ is invoked, otherwise identity) and a projection with the ISG false origin but another layout joined the lattice',
+    'C02_S': 'first only C01; C02 now runs the formula rules of the forward series (the round trip goes through it)',
+    'C02_U': 'missed at first; caught by a guard pass of grid2geo for the ISG in the northern hemisphere',
+    'C03_S': 'UNDECIDED at first; a loop-free latitude is now held to the geodetic equation itself (residual at points of the height range)',
+    'C04_S': 'UNDECIDED at first; caught after magnitude tests (abs(lat) == 90) yielded both special inputs and removable singularities of the reference were replaced by its extrapolated limit',
+    'C04_U': 'UNDECIDED at first; when no loop variable carries 2 sigma_m the result formulas are compared with 2 sigma1 + the converged sigma',
+    'C05_S': 'UNDECIDED at first (a slip in a third-order term moves the distance by 1e-10 of its size); caught by the finer numeric witness',
+    'C07_U': 'missed at first; caught by deciding the raising tests of conform14 that look at the point over the coordinate box (zero included)',
+    'C08_S': 'missed at first; caught by the float-subclass rule (no method reads the float value of the object instead of its stored angle)',
+    'C08_T': 'missed at first; caught by the one-mask rule for the vectorised converters',
+    'C08_U': 'missed at first; caught by the in-place accumulation rule for the vectorised converters',
+    'C09_T': 'missed at first; caught by the kept-open-file rule',
+    'C09_U': 'missed at first; caught by the process-wide-state rule (warning filters set and not restored)',
+    'C10_U': 'UNDECIDED at first; caught after C10 ran the zone lattice with a user-defined projection of more than 60 zones',
+    'C11_U': 'missed at first; caught by evaluating __add__ at every epoch the catalogue uses',
+    'C12_T': 'UNDECIDED at first; caught after `except AttributeError` was modelled on constructed objects and by the operator value / class table (NotImplemented hands over to the reflected method)',
+    'C12_U': 'UNDECIDED at first; caught by the operator value / class table',
+    'C13_S': 'missed at first; caught by the spectral sign-test rule (an exact sign test on computed eigenvalues in front of a raise)',
+    'C13_T': 'UNDECIDED at first; caught after numpy broadcasting of two 2-d arrays was modelled',
+    'C14_U': 'UNDECIDED at first; caught after negated conjunctions of truthiness tests were analysed at their special points and line_sf was evaluated for two stations in one zone',
+    'C15_T': 'first only C01; C15 now runs the guards and the zone lattice of geo2grid',
+    'C15_U': 'first only C01; same mechanism as C15_T',
+    'C16_S': 'UNDECIDED at first; caught after even powers of an absolute value were simplified (|d|^2 = d^2)',
+    'C18_T': 'missed at first; caught by the station-fields-by-position rule',
+    'C20_S': 'first only C08; C20 now runs the carry and digit rules of the two converters its dms paths go through',
+    'C20_T': 'ANALYSIS-ERROR at first; caught after conditional response bodies were split into paths: a successful answer that is not built from the library call is a shortcut',
     'C08_C': 'patch re-based after the HP repairs; first UNDECIDED, caught after str(float) was modelled as a non-fixed-point rendering',
 }
 
